@@ -10,7 +10,7 @@ LEVEL_TEXT = (
     'Index._labels/_positions, IndexHierarchy._blocks and ArrayGO._array anywhere in core is dominated by the staleness guard '
     '(forward must-dataflow over every path of every function, with ensures-fresh summaries and interprocedural '
     'requires-fresh propagation for private readers). A read without the guard serves the pre-growth arrays after an '
-    'append, which breaks the label<->position bijection for that method on a grown index. Views: every view method of Index / IndexHierarchy (__len__, values, positions, __iter__, __reversed__, depth, shape, __contains__) presents the one backing label sequence (tree while stale, table when fresh). Key-steered descent: an IndexLevelGO mutator that steps into a fixed child (targets[-1]) checks that the matched key component sits at that position and raises otherwise, before mutating. Not decided: correctness '
+    'append, which breaks the label<->position bijection for that method on a grown index. Views: every view method of Index / IndexHierarchy (__len__, values, positions, __iter__, __reversed__, depth, shape, __contains__) presents the one backing label sequence (tree while stale, table when fresh). Key-steered descent: an IndexLevelGO mutator that steps into a fixed child (targets[-1]) checks that the matched key component sits at that position and raises otherwise, before mutating. Key walkers: IndexLevel membership and leaf lookup agree that a key is accepted at a leaf only when it is exhausted (no over-long tuple is a member). Not decided: correctness '
     'of the AutoMap hash map, NaN/float label equality, offset arithmetic of IndexLevel.leaf_loc_to_iloc.')
 
 CLAIM = dict(
@@ -30,3 +30,4 @@ def run(ctx: Ctx) -> None:
     atomic.d_atomic(ctx, only=('index.', 'index_datetime.', 'index_level.', 'array_go.'))
     indexrules.views_agree(ctx)
     indexrules.descent_follows_key(ctx)
+    indexrules.leaf_exit_key_exhausted(ctx)
